@@ -103,9 +103,12 @@ class Checker:
         p = n.parent
         if p.cls in LITERALS:
             return
-        if p.cls == 'Ref' and p.parent is not None and p.parent.cls == 'Discard' \
-                and p.parent.rule in self.start_rules and not p.parent.kids[:-1]:
-            return
+        if p.cls == 'Ref' and p.parent is not None and p.parent.cls == 'Discard' and p.parent.kids[0] is p:
+            d = p.parent
+            if d.rule is not None and d.rule.lower() == 'start':
+                return      # start = <leading skip> >> expr
+            if d.parent is not None and d.parent.cls == 'Seq' and d.parent.kids[0] is d:
+                return      # first member of a start class
         if p.cls == 'Ref' and p.parent is not None and p.parent.cls == 'Skip' and p.parent.rule == '_ignored':
             return      # a derived grammar's _ignored delegating to its parent's
         if p.cls == 'ROOT':
